@@ -322,7 +322,8 @@ class DM:
             protograd = fourier_resample_backprop(protograd, self.upsample, self.ifn.shape)
 
         if wfe:
-            protograd *= (2*self.obliquity)
+            # not in place: protograd may still be the caller's array
+            protograd = protograd * (2*self.obliquity)
 
         # return protograd
         if self.needs_rot:
